@@ -7,6 +7,8 @@ mod interpose;
 mod builder;
 #[path = "../comm.rs"]
 mod comm;
+#[path = "../pipe.rs"]
+mod pipe;
 #[path = "../life.rs"]
 mod life;
 #[path = "../proto.rs"]
@@ -58,6 +60,7 @@ fn main() {
         "life" => life::run(seed, n, args.get(4).map(|s| s.as_str())),
         "comm" | "commbig" => comm::run(seed, n, args.get(4).and_then(|s| s.parse().ok()), mode == "commbig"),
         "spawn" => spawn::run(args.get(2).map(|s| s.as_str()).unwrap_or("-")),
+        "pipe" => pipe::run(args.get(2).map(|s| s.as_str()).unwrap_or("-"), args.get(3).and_then(|s| s.parse().ok()).unwrap_or(0)),
         "builder" => builder::run(args.get(2).map(|s| s.as_str()).unwrap_or("-")),
         _ => {
             eprintln!("usage: harness life|comm|commbig <seed> <ncases> [index] | spawn <casefile>");
